@@ -780,6 +780,24 @@ def _instance_reads(m, ci, f, skip=(), seen=None):
     return out
 
 
+def _handed_out_by_reference(m, ci, attr):
+    """does `instance.<attr>` give the caller the stored object itself?  True when the attribute is a descriptor of the
+    repository whose __get__ returns the entry of the instance dictionary without copying it."""
+    r = m.lookup(ci, attr)
+    if r is None or r[1] != 'assign' or not (isinstance(r[2], ast.Call) and isinstance(r[2].func, ast.Name)):
+        return False
+    rr = m.resolve_name(r[0].module, r[2].func.id)
+    if rr[0] != 'class':
+        return False
+    g = m.lookup(rr[1], '__get__')
+    if g is None or g[1] != 'method':
+        return False
+    rets = [st.value for st in ast.walk(g[2].node) if isinstance(st, ast.Return) and st.value is not None]
+    stored = [v for v in rets if isinstance(v, ast.Subscript) and '__dict__' in ast.unparse(v.value)]
+    copied = [v for v in rets if isinstance(v, ast.Call) and ('copy' in ast.unparse(v.func))]
+    return bool(stored) and not copied
+
+
 def memoised_geometry(m, ci, names=None, rule='memo'):
     """[(method, why, func)]: geometry methods of class `ci` (and the properties/methods of `self` they read, transitively)
     that remember a result across calls — a memoising decorator, or a store into the instance (`self.K = v`,
@@ -840,6 +858,14 @@ def memoised_geometry(m, ci, names=None, rule='memo'):
                 byref = sorted(a for a in rd if m.descriptor_kind(ci, a) in (None, 'ScalarPixCoord', 'OneDPixCoord', 'RegionMetaDescr',
                                                                              'RegionVisualDescr', 'RegionType'))
                 if byref:
+                    # a value the region hands out *by reference* (the descriptor's __get__ returns the stored object itself)
+                    # can be changed without any writer running: `reg.center.x += 1`, `reg.meta['include'] = False`
+                    confirmed = [a for a in byref if _handed_out_by_reference(m, ci, a)]
+                    if confirmed:
+                        out.append((name, f'{why}; every parameter writer drops the entry {key!r}, but the remembered value '
+                                    f'reads self.{confirmed[0]}, which the region hands out by reference: an in-place change '
+                                    f'(`region.{confirmed[0]}.x += 1`, `region.meta[...] = ...`) runs no writer and leaves the entry stale', f))
+                        continue
                     raise AnalysisError(rule, f'{ci.name}.{name}', f'{why}; every parameter writer drops the entry {key!r}, but the '
                                         f'remembered value reads self.{", self.".join(byref)}, which can be changed in place — not decided')
             elif (ka := _key_checked(m, ci, f, key)) is not None:
